@@ -31,9 +31,10 @@ func (t *Transformer) transformStruct(ws *WireStruct, pkg *types.Package) *Kesso
 	}
 
 	// Collect fields to include (skip unexported fields from external packages)
+	allFields := len(ws.Fields) > 0 && ws.Fields[0] == "*"
 	var fieldInfos []fieldInfo
 	for field := range st.Fields() {
-		if ws.Fields[0] == "*" || contains(ws.Fields, field.Name()) {
+		if allFields || contains(ws.Fields, field.Name()) {
 			// Skip unexported fields from external packages
 			if isExternalPkg && !field.Exported() {
 				continue
